@@ -584,3 +584,7 @@ def main(pid, tier=None, replay=None):
         return 2
     finally:
         ctx.cleanup()
+        if str(REPO) != '/repo':
+            # a scratch tree regenerated lean/AbacusVerif/Generated from ITS source: put the committed files back
+            subprocess.run(['git', '-C', str(VERIF), 'checkout', '-q', '--', 'lean/AbacusVerif/Generated'],
+                           stdout=subprocess.DEVNULL, stderr=subprocess.DEVNULL)
